@@ -17,6 +17,7 @@ package main
 //   restorer         = function that calls content.Successors                      (restoreDuplicates)
 
 import (
+	"fmt"
 	"go/constant"
 	"go/token"
 	"go/types"
@@ -241,6 +242,787 @@ func runC12(c *Ctx) {
 	c12R4(c, fns)
 	c12R5(c, fns)
 	c12R6(c, fns)
+	c12R8(c, fns)
+	c12R9(c, fns)
+	c12R10(c, fns)
+	c12R11(c, fns)
+}
+
+// ---------- R8: the packed tar stream is complete ----------
+
+// c12R8: what tarDirectory-role code writes is what the descriptor digests, so a
+// stream that silently lacks bytes still "verifies".  Necessary conditions on
+// the pack side: the header comes from tar.FileInfoHeader of the walked entry's
+// FileInfo; the content of a regular file is copied from os.Open of the walked
+// path into the same tar writer, after the header, and the errors of Open, the
+// copy and WriteHeader surface; the Close of the tar writer (footer, flush) is
+// captured into the packer's result.
+func c12R8(c *Ctx, fns []*ssa.Function) {
+	const R8 = "C12.R8.pack-stream-complete"
+	c.Expect(R8, 4)
+	var W *ssa.Function
+	for _, f := range fns {
+		if len(CallsTo(f, "(*archive/tar.Writer).WriteHeader")) > 0 {
+			W = f
+		}
+	}
+	ts := c12FnsCalling(fns, "archive/tar.NewWriter")
+	if W == nil || len(ts) == 0 {
+		c.LostAnchor(R8, "tar writer / walk step of ~/content/file (tar.NewWriter, (*tar.Writer).WriteHeader)")
+		return
+	}
+	T := ts[0]
+	for T.Parent() != nil {
+		T = T.Parent()
+	}
+	wn := FnName(T)
+	wh := CallsTo(W, "(*archive/tar.Writer).WriteHeader")[0].(*ssa.Call)
+	// (1) header from the walked FileInfo
+	var hv []ssa.Value
+	c12ExpandValue(fns, wh.Call.Args[1], 0, map[ssa.Value]bool{}, &hv)
+	okHdr := len(hv) > 0
+	nHdr := 0
+	for _, v := range hv {
+		if k, isK := v.(*ssa.Const); isK && k.IsNil() {
+			continue // the header returned next to an error
+		}
+		nHdr++
+		ex, ok := v.(*ssa.Extract)
+		var fih *ssa.Call
+		if ok && ex.Index == 0 {
+			fih, _ = ex.Tuple.(*ssa.Call)
+		}
+		if fih == nil || CalleeName(fih) != "archive/tar.FileInfoHeader" {
+			okHdr = false
+			continue
+		}
+		var iv []ssa.Value
+		c12ExpandValue(fns, fih.Call.Args[0], 0, map[ssa.Value]bool{}, &iv)
+		for _, i := range iv {
+			prm, isP := i.(*ssa.Parameter)
+			if !isP || !strings.Contains(prm.Type().String(), "FileInfo") {
+				okHdr = false
+			}
+		}
+		if len(iv) == 0 {
+			okHdr = false
+		}
+	}
+	okHdr = okHdr && nHdr > 0
+	r := ErrFlow(wh, ErrFlowOpts{})
+	c.Check(R8, wn+"|header-from-walked-fileinfo", wh.Pos(), okHdr && r.OK, ifelse(okHdr && r.OK, "the header written is tar.FileInfoHeader of the walk's FileInfo; the WriteHeader error surfaces",
+		"the tar header is not built from the FileInfo of the walked entry (mode, type, size would not be those of the file), or a failed WriteHeader is ignored: "+r.Detail))
+	// (2) content
+	isTarDst := func(v ssa.Value) bool {
+		for _, rt := range Roots(v) {
+			if rt.Type().String() == "*archive/tar.Writer" {
+				return true
+			}
+		}
+		return false
+	}
+	hasCopy := func(f *ssa.Function) bool {
+		for _, cp := range CallsTo(f, "io.Copy", "io.CopyBuffer", "io.CopyN") {
+			if isTarDst(cp.Common().Args[0]) {
+				return true
+			}
+		}
+		return false
+	}
+	F, links := c11FindUnit(W, hasCopy, 2, map[*ssa.Function]bool{})
+	if F == nil {
+		c.Violation(R8, wn+"|content-copied-from-walked-file", wh.Pos(), "no copy of the file content into the tar writer is found: regular files are packed empty")
+	} else {
+		var cp ssa.CallInstruction
+		for _, x := range CallsTo(F, "io.Copy", "io.CopyBuffer", "io.CopyN") {
+			if isTarDst(x.Common().Args[0]) {
+				cp = x
+			}
+		}
+		okSrc := false
+		var op ssa.CallInstruction
+		for _, o := range CallsTo(F, "os.Open") {
+			if f0 := ResultOf(o, 0); f0 != nil && c11DerivesFrom(cp.Common().Args[1], map[ssa.Value]bool{f0: true}) {
+				op = o
+			}
+		}
+		if op != nil {
+			// the opened path is the walked path: (lifted to the walk step) the value Rel is computed from
+			paths := []ssa.Value{op.Common().Args[0]}
+			if F != W {
+				paths = c11Lift(paths, links)
+			}
+			for _, rel := range CallsTo(W, "path/filepath.Rel") {
+				for _, pv := range paths {
+					if c11SameLoc(pv, rel.Common().Args[1]) {
+						okSrc = true
+					}
+				}
+			}
+			if len(CallsTo(W, "path/filepath.Rel")) == 0 {
+				// the name is computed by a helper: the opened path must still be a parameter of the walk step
+				for _, pv := range paths {
+					for _, rt := range Roots(pv) {
+						if prm, isP := rt.(*ssa.Parameter); isP && prm.Parent() == W {
+							okSrc = true
+						}
+					}
+				}
+			}
+		}
+		okErr := op != nil && ErrFlow(op, ErrFlowOpts{}).OK && ErrFlow(cp, ErrFlowOpts{}).OK
+		for _, l := range links {
+			if !ErrFlow(l.Call, ErrFlowOpts{}).OK {
+				okErr = false
+			}
+		}
+		// after the header
+		at := cp.(ssa.Instruction)
+		if F != W && len(links) > 0 {
+			at = links[0].Call
+		}
+		okOrder := MustPass(at, newCut().Instr(wh))
+		ok := okSrc && okErr && okOrder
+		c.Check(R8, wn+"|content-copied-from-walked-file", cp.Pos(), ok, ifelse(ok, "the content is copied from os.Open(walked path) into the tar writer after the header; open/copy errors surface",
+			ifelse(!okSrc, "the bytes copied into the tar stream do not come from the walked file", ifelse(!okOrder, "the content can be written before its header", "an error of opening or copying the file is swallowed: the tarball silently lacks (part of) a file and still verifies against its own digest"))))
+	}
+	// (3) Close of the tar writer captured
+	whyClose := "the tar writer is never closed with its error captured: a failed flush of the last blocks / footer is lost and a truncated tarball is digested and stored"
+	okClose := c12CloseErrCaptured(T, isTarDst)
+	c.Check(R8, wn+"|tar-close-error-captured", T.Pos(), okClose, ifelse(okClose, "a failing Close of the tar writer becomes the packer's error unless an error is already pending", whyClose))
+	// (4) the link target of a symbolic link is read from the walked path
+	okLink := false
+	for _, v := range hv {
+		if ex, ok := v.(*ssa.Extract); ok {
+			if fih, ok := ex.Tuple.(*ssa.Call); ok && CalleeName(fih) == "archive/tar.FileInfoHeader" {
+				lf := fih.Parent()
+				for _, rl := range CallsTo(lf, "os.Readlink") {
+					if l0 := ResultOf(rl, 0); l0 != nil && c11DerivesFrom(fih.Call.Args[1], map[ssa.Value]bool{l0: true}) && ErrFlow(rl, ErrFlowOpts{}).OK {
+						okLink = true
+					}
+				}
+			}
+		}
+	}
+	c.Check(R8, wn+"|link-target-from-readlink", wh.Pos(), okLink, ifelse(okLink, "FileInfoHeader's link argument is os.Readlink of the walked entry; its error surfaces",
+		"the link name put into the header does not come from os.Readlink (symbolic links are packed with an empty / wrong target), or the Readlink error is ignored"))
+}
+
+// c12CloseErrCaptured: a Close of the stream denoted by isTarget (a value of T or
+// of its literals) becomes T's error when no error is pending: returned
+// directly, stored into the result by a deferred literal, or by a closing
+// helper handed the stream and a pointer to the result.
+func c12CloseErrCaptured(T *ssa.Function, isTarget func(ssa.Value) bool) bool {
+	okClose := false
+	errIdx := ErrResultIndex(T.Signature)
+	if errIdx < 0 {
+		return false
+	}
+	isClose := func(call ssa.CallInstruction) bool {
+		cc := call.Common()
+		if cc.IsInvoke() {
+			return cc.Method.Name() == "Close" && isTarget(cc.Value)
+		}
+		g := StaticCallee(call)
+		return g != nil && g.Name() == "Close" && len(cc.Args) > 0 && g.Signature.Recv() != nil && isTarget(cc.Args[0])
+	}
+	for _, f := range append([]*ssa.Function{T}, Anons(T)...) {
+		for _, cl := range Calls(f, func(string) bool { return true }) {
+			if !isClose(cl) {
+				continue
+			}
+			if _, isDefer := cl.(*ssa.Defer); isDefer {
+				continue
+			}
+			if f == T {
+				if ErrFlow(cl, ErrFlowOpts{}).OK {
+					okClose = true
+				}
+				continue
+			}
+			// closure: stores into the captured error result
+			for _, fv := range f.FreeVars {
+				for _, b := range freeVarBindings(fv) {
+					for _, ret := range Returns(T) {
+						if cellOf(ret.Results[errIdx]) != nil && ssa.Value(cellOf(ret.Results[errIdx])) == b {
+							if ok, _ := c18CloseIntoCell(f, cl.Value(), fv); ok {
+								okClose = true
+							}
+						}
+					}
+				}
+			}
+		}
+		if f != T {
+			continue
+		}
+		// closing helper handed the stream and a pointer to the result
+		for _, call := range Calls(f, func(string) bool { return true }) {
+			K := StaticCallee(call)
+			if K == nil || K == T || K.Parent() != nil || !inModule(K) || len(K.Blocks) == 0 {
+				continue
+			}
+			for i, a := range call.Common().Args {
+				if i >= len(K.Params) || !isTarget(a) {
+					continue
+				}
+				var kc *ssa.Call
+				AllInstrs(K, func(in ssa.Instruction) {
+					if cv, ok := in.(*ssa.Call); ok && cv.Call.IsInvoke() && cv.Call.Method.Name() == "Close" && c11SameRoots(cv.Call.Value, K.Params[i]) {
+						kc = cv
+					}
+				})
+				if kc == nil {
+					continue
+				}
+				for j, b := range call.Common().Args {
+					for _, ret := range Returns(T) {
+						if j < len(K.Params) && cellOf(ret.Results[errIdx]) != nil && ssa.Value(cellOf(ret.Results[errIdx])) == b {
+							if ok, _ := c18CloseIntoCell(K, kc, K.Params[j]); ok {
+								okClose = true
+							}
+						}
+					}
+				}
+			}
+		}
+	}
+	return okClose
+}
+
+// ---------- R10: the extraction is complete ----------
+
+// c12R10: what the unpack side must do for the restored tree to be the packed
+// one, whatever the stream: the entry loop ends with success only at io.EOF
+// (an entry of an unknown kind, or a handled one, never ends the extraction);
+// the content of a regular entry is copied from the tar reader into the opened
+// file with the copy and Close errors surfacing; a failing creation of a
+// directory or link surfaces.
+func c12R10(c *Ctx, fns []*ssa.Function) {
+	const R10 = "C12.R10.extraction-complete"
+	c.Expect(R10, 3)
+	var LF *ssa.Function
+	var next ssa.CallInstruction
+	for _, f := range fns {
+		for _, n := range CallsTo(f, "(*archive/tar.Reader).Next") {
+			LF, next = f, n
+		}
+	}
+	if LF == nil {
+		c.LostAnchor(R10, "the entry loop of the tar extractor in ~/content/file ((*tar.Reader).Next)")
+		return
+	}
+	e := ErrOf(next)
+	okLoop, whyLoop := false, ""
+	root := LF
+	for root.Parent() != nil {
+		root = root.Parent()
+	}
+	if e == nil {
+		whyLoop = "the error of (*tar.Reader).Next is discarded"
+	} else {
+		al := Aliases(e)
+		eof := toleratedEdges(LF, al, []string{"io.EOF"})
+		var yield ssa.Value
+		for _, prm := range LF.Params {
+			if _, isFn := prm.Type().Underlying().(*types.Signature); isFn && LF.Parent() != nil {
+				yield = prm
+			}
+		}
+		switch {
+		case len(eof) == 0:
+			whyLoop = "the error of (*tar.Reader).Next is never compared with io.EOF"
+		case yield == nil && ErrResultIndex(LF.Signature) >= 0:
+			// plain loop: every successful return lies behind err == io.EOF
+			atoms := c11SuccessAtoms(LF)
+			okLoop = len(atoms) > 0
+			for _, a := range atoms {
+				if !AtomMustPass(a, newCut().Edges(eof...)) {
+					okLoop = false
+					whyLoop = "the extractor can return success without the tar reader having reported io.EOF: an entry (of an unhandled kind, or the first handled one) ends the extraction and the rest of the tree is silently not restored"
+				}
+			}
+		case yield != nil:
+			// iterator: the producer stops without yielding only at io.EOF; the loop body stops only with an error recorded
+			okLoop = true
+			var ycalls []ssa.Instruction
+			for _, call := range Calls(LF, func(string) bool { return true }) {
+				if cv, ok := call.(*ssa.Call); ok && cv.Call.Value == yield {
+					ycalls = append(ycalls, cv)
+				}
+			}
+			for _, ret := range Returns(LF) {
+				if !MustPass(ret, newCut().Edges(eof...).Instr(ycalls...)) {
+					okLoop, whyLoop = false, "the iterator over the entries can end without io.EOF and without yielding the read error"
+				}
+			}
+			found := false
+			for _, f := range fns {
+				for _, rf := range c11RangeFuncs(f) {
+					if rf.PC != LF || rf.Yield == nil {
+						continue
+					}
+					found = true
+					_, stop := c11YieldReturns(rf.Yield)
+					for _, ret := range stop {
+						recorded := false
+						for _, in := range ret.Block().Instrs {
+							if st, ok := in.(*ssa.Store); ok {
+								if _, isFV := st.Addr.(*ssa.FreeVar); isFV && isErrorType(st.Val.Type()) {
+									if k, isK := st.Val.(*ssa.Const); !isK || !k.IsNil() {
+										recorded = true
+									}
+								}
+							}
+						}
+						if !recorded {
+							okLoop, whyLoop = false, "the loop over the entries is left (break / return nil) without an error: the rest of the tree is silently not restored"
+						}
+					}
+				}
+			}
+			if !found {
+				okLoop, whyLoop = false, "the loop consuming the entry iterator is not found"
+			}
+		default:
+			whyLoop = "the function reading the entries has no error result"
+		}
+	}
+	c.Check(R10, FnName(root)+"|loop-ends-only-at-eof", next.Pos(), okLoop, ifelse(okLoop, "success of the extractor lies behind Next reporting io.EOF; no entry ends the loop silently", whyLoop))
+
+	// the extractor's side of the content: the function opening the entry's file
+	var E *ssa.Function
+	for _, f := range fns {
+		if f.Parent() == nil && len(CallsTo(f, "archive/tar.NewReader")) > 0 {
+			E = f
+		}
+	}
+	if E == nil {
+		E = root
+	}
+	reachE := append([]*ssa.Function{E}, c12Reachable(E, fns, 3)...)
+	nOpen := 0
+	for _, f := range reachE {
+		for _, op := range CallsTo(f, "os.OpenFile", "os.Create") {
+			f0 := ResultOf(op, 0)
+			if f0 == nil {
+				continue
+			}
+			nOpen++
+			fset := map[ssa.Value]bool{f0: true}
+			isFile := func(v ssa.Value) bool { return c11DerivesFrom(v, fset) }
+			var cp ssa.CallInstruction
+			for _, x := range CallsTo(f, "io.Copy", "io.CopyBuffer", "io.CopyN", "(*os.File).ReadFrom") {
+				if isFile(x.Common().Args[0]) {
+					cp = x
+				}
+			}
+			key := FnName(f) + "|content-copied-from-archive"
+			if cp == nil {
+				c.Violation(R10, key, op.Pos(), "the opened file of a regular entry is never written from the archive")
+				continue
+			}
+			var leaves []ssa.Value
+			c12ExpandValue(fns, cp.Common().Args[1], 0, map[ssa.Value]bool{}, &leaves)
+			okSrc := len(leaves) > 0
+			for _, lf := range leaves {
+				if !strings.HasSuffix(lf.Type().String(), "archive/tar.Reader") {
+					okSrc = false
+				}
+			}
+			okErr := ErrFlow(cp, ErrFlowOpts{}).OK && ErrFlow(op, ErrFlowOpts{}).OK
+			okClose := c12CloseErrCaptured(f, isFile)
+			ok := okSrc && okErr && okClose
+			c.Check(R10, key, cp.Pos(), ok, ifelse(ok, "the content comes from the tar reader positioned at the entry; open, copy and Close errors surface",
+				ifelse(!okSrc, "the bytes written into the entry's file do not come from the tar reader", ifelse(!okErr, "an error of opening the file or of copying the entry's content is swallowed: a short file is restored silently",
+					"the error of closing the written file is lost: buffered content that fails to reach the disk goes unnoticed"))))
+		}
+	}
+	if nOpen == 0 {
+		c.LostAnchor(R10, "the function opening the file of a regular archive entry (os.OpenFile / os.Create reachable from the tar extractor)")
+	}
+	// creation of directories and links
+	for _, f := range reachE {
+		n := map[string]int{}
+		for _, call := range CallsTo(f, "os.MkdirAll", "os.Mkdir", "os.Link", "os.Symlink") {
+			name := CalleeName(call)
+			n[name]++
+			label := name
+			if n[name] > 1 {
+				label = fmt.Sprintf("%s#%d", name, n[name])
+			}
+			var tol []string
+			if name == "os.Symlink" {
+				tol = []string{"io/fs.ErrExist", "os.ErrExist"}
+			}
+			var ok bool
+			var why string
+			if f.Synthetic != "" && f.Parent() != nil && ErrResultIndex(f.Signature) < 0 {
+				ok, why = c12ErrSurfacesFromYield(call, tol)
+			} else if len(tol) > 0 {
+				ok, why = c12ErrFlowWithPredicates(call, tol)
+				if !ok {
+					r := ErrFlow(call, ErrFlowOpts{Tolerated: tol})
+					ok, why = r.OK, r.Detail
+				}
+			} else {
+				r := ErrFlow(call, ErrFlowOpts{})
+				ok, why = r.OK, r.Detail
+			}
+			if !ok && c12ErrSurfacesPastJoins(call, tol) {
+				ok = true
+			}
+			c.Check(R10, "archive-entry|"+label+"|creation-error-surfaces", call.Pos(), ok, ifelse(ok, "a failure to create the entry becomes the extractor's error", "a failure to create the entry is swallowed ("+why+"): the entry is missing from the restored tree and the push succeeds"))
+		}
+	}
+}
+
+// c12ErrSurfacesPastJoins: ErrFlow explores path-insensitively, so after
+// `if err != nil && tolerated(err) { retry }` the later `if err != nil` on the
+// merged variable lets it wander down the "nil" side with our non-nil error.
+// On a path that starts at a non-nil edge of the error and has not re-executed
+// the call, a nil edge of a test of an alias of that error is infeasible: cut it.
+func c12ErrSurfacesPastJoins(call ssa.CallInstruction, tolerated []string) bool {
+	fn := call.Parent()
+	errIdx := ErrResultIndex(fn.Signature)
+	e := ErrOf(call)
+	if e == nil || errIdx < 0 {
+		return false
+	}
+	al := Aliases(e)
+	nilE, nonNil, ifs := NilTests(fn, al)
+	if len(ifs) == 0 || len(nonNil) == 0 {
+		return false
+	}
+	ct := newCut().Edges(toleratedEdges(fn, al, tolerated)...).Edges(nilE...).Instr(call.(ssa.Instruction))
+	for _, ne := range nonNil {
+		if findNilReturnFrom(fn, ne, errIdx, ct, al) != nil {
+			return false
+		}
+	}
+	return true
+}
+
+// ---------- R11: Fetch serves the file the digest was computed from ----------
+
+// c12R11: on the way out of the first store ("copied through any other store")
+// the bytes served for a descriptor are those of the path recorded for its
+// digest: the file opened by Fetch is the value loaded, under the digest of the
+// requested descriptor, from a digest-keyed map the describers / pushers store
+// into.  (Opening by name, or by another descriptor field, serves other bytes
+// for two blobs with equal names or equal content.)
+func c12R11(c *Ctx, fns []*ssa.Function) {
+	const R11 = "C12.R11.fetch-serves-recorded-path"
+	c.Expect(R11, 1)
+	fetch := c.P.Fn(c11Pkg, "Store.Fetch")
+	if fetch == nil {
+		c.LostAnchor(R11, "(*~/content/file.Store).Fetch")
+		return
+	}
+	// digest-keyed sync.Map fields
+	mf := map[string]bool{}
+	for _, f := range fns {
+		for _, st := range CallsTo(f, "(*sync.Map).Store") {
+			a := st.Common().Args
+			fa, ok := a[0].(*ssa.FieldAddr)
+			if !ok || len(a) < 3 {
+				continue
+			}
+			for _, r := range Roots(a[1]) {
+				if strings.HasSuffix(r.Type().String(), "go-digest.Digest") {
+					mf[fieldName(fa.X.Type(), fa.Field)] = true
+				}
+			}
+		}
+	}
+	F, links := c11FindUnit(fetch, func(f *ssa.Function) bool { return len(CallsTo(f, "os.Open", "os.OpenFile")) > 0 }, 2, map[*ssa.Function]bool{})
+	if F == nil || len(mf) == 0 {
+		c.LostAnchor(R11, "the os.Open of Fetch / a digest-keyed sync.Map field of ~/content/file.Store")
+		return
+	}
+	for _, op := range CallsTo(F, "os.Open", "os.OpenFile") {
+		paths := []ssa.Value{op.Common().Args[0]}
+		if F != fetch {
+			paths = c11Lift(paths, links)
+		}
+		ok := len(paths) > 0
+		for _, pv := range paths {
+			good := false
+			for _, g := range append([]*ssa.Function{fetch}, c12Reachable(fetch, fns, 1)...) {
+				for _, ld := range CallsTo(g, "(*sync.Map).Load") {
+					a := ld.Common().Args
+					fa, isFA := a[0].(*ssa.FieldAddr)
+					v0 := ResultOf(ld, 0)
+					if !isFA || !mf[fieldName(fa.X.Type(), fa.Field)] || v0 == nil {
+						continue
+					}
+					keyOK := false
+					var leaves []ssa.Value
+					c12ExpandValue(fns, a[1], 0, map[ssa.Value]bool{}, &leaves)
+					for _, lf := range leaves {
+						if strings.HasSuffix(fieldOfFuncValue(lf), "Descriptor.Digest") {
+							keyOK = true
+						} else {
+							keyOK = false
+							break
+						}
+					}
+					if !keyOK {
+						continue
+					}
+					rs := Roots(pv)
+					all := len(rs) > 0
+					for _, r := range rs {
+						if !c11DerivesFrom(r, map[ssa.Value]bool{v0: true}) {
+							all = false
+						}
+					}
+					if all {
+						good = true
+					}
+				}
+			}
+			if !good {
+				ok = false
+			}
+		}
+		c.Check(R11, FnName(fetch)+"|opens-path-recorded-for-digest", op.Pos(), ok, ifelse(ok, "the file opened is the value loaded from the digest-keyed map under the requested descriptor's Digest",
+			"the file Fetch opens is not the path recorded for the requested digest: the bytes served need not be those the descriptor was computed from"))
+	}
+}
+
+// ---------- R9: pack and unpack agree on the name ----------
+
+// c12R9: entries are packed as <title>/<rel> and unpacked relative to <title>:
+// the prefix handed to the tar writer is the very value Add stores as the title
+// annotation, and the base name handed to the archive-entry sanitiser on unpack
+// is the title annotation of the pushed descriptor.
+func c12R9(c *Ctx, fns []*ssa.Function) {
+	const R9 = "C12.R9.pack-unpack-name-agreement"
+	c.Expect(R9, 3)
+	title := ""
+	if k, ok := c.P.Obj("github.com/opencontainers/image-spec/specs-go/v1", "AnnotationTitle").(*types.Const); ok {
+		title = strings.Trim(k.Val().ExactString(), "\"")
+	}
+	add := c.P.Fn(c11Pkg, "Store.Add")
+	ts := c12FnsCalling(fns, "archive/tar.NewWriter")
+	if add == nil || len(ts) == 0 || title == "" {
+		c.LostAnchor(R9, "(*~/content/file.Store).Add / the tar writer / ocispec.AnnotationTitle")
+		return
+	}
+	T := ts[0]
+	for T.Parent() != nil {
+		T = T.Parent()
+	}
+	// pack side: the title value
+	var titleVal ssa.Value
+	for _, f := range append([]*ssa.Function{add}, c12Reachable(add, fns, 2)...) {
+		AllInstrs(f, func(in ssa.Instruction) {
+			if mu, ok := in.(*ssa.MapUpdate); ok {
+				if k, isK := constString(mu.Key); isK && k == title {
+					titleVal = mu.Value
+				}
+			}
+		})
+	}
+	okPack := false
+	if titleVal != nil {
+		// the element joined in front of the Rel result, followed up through captured variables and
+		// parameters to the entry points, is the title value
+		troots := map[ssa.Value]bool{}
+		var tl []ssa.Value
+		c12ExpandValue(fns, titleVal, 0, map[ssa.Value]bool{}, &tl)
+		for _, tr := range tl {
+			troots[tr] = true
+		}
+		nJoin, bad := 0, false
+		for _, f := range append([]*ssa.Function{T}, c12Reachable(T, fns, 2)...) {
+			for _, j := range CallsTo(f, "path/filepath.Join") {
+				jv := j.Value()
+				if jv == nil {
+					continue
+				}
+				rel := map[ssa.Value]bool{}
+				for _, r := range CallsTo(f, "path/filepath.Rel") {
+					if v := ResultOf(r, 0); v != nil {
+						rel[v] = true
+					}
+				}
+				if len(rel) == 0 || !c11DerivesFrom(jv, rel) {
+					continue
+				}
+				var els []ssa.Value
+				for _, a := range j.Common().Args {
+					c11SliceElems(a, &els)
+				}
+				for _, e := range els {
+					if c11DerivesFrom(e, rel) {
+						continue
+					}
+					nJoin++
+					var leaves []ssa.Value
+					c12ExpandValue(fns, e, 0, map[ssa.Value]bool{}, &leaves)
+					if len(leaves) == 0 {
+						bad = true
+					}
+					for _, lf := range leaves {
+						if !troots[lf] {
+							bad = true
+						}
+					}
+				}
+			}
+		}
+		okPack = nJoin > 0 && !bad
+	}
+	c.Check(R9, FnName(add)+"|pack-prefix-is-title", add.Pos(), okPack, ifelse(okPack, "the prefix under which entries are packed is the value Add records as the title annotation",
+		"the prefix of the packed entry names is not the title annotation of the descriptor: on unpack the entries are judged \"outside of\" the directory name (or land under another name)"))
+	// unpack side: the base name given to the archive-entry sanitiser
+	probe := &Ctx{Prop: c.Prop, Tier: c.Tier, P: c.P, Variant: c.Variant}
+	c11PkgFns = fns
+	roles := c11ResolveRoles(probe, fns)
+	okUnpack, n := true, 0
+	if roles == nil {
+		okUnpack = false
+	} else {
+		for _, SR := range roles.SR {
+			// parameters of the sanitiser that reach the base argument of its Rel computation
+			relBase := map[int]bool{}
+			relFn, relLinks := c11FindUnit(SR, func(f *ssa.Function) bool { return len(CallsTo(f, "path/filepath.Rel")) > 0 }, 3, map[*ssa.Function]bool{})
+			if relFn != nil {
+				for _, r := range CallsTo(relFn, "path/filepath.Rel") {
+					vals := []ssa.Value{r.Common().Args[0]}
+					if relFn != SR {
+						vals = c11Lift(vals, relLinks)
+					}
+					for _, v := range vals {
+						var ops []ssa.Value
+						c11Operands(v, &ops, map[ssa.Value]bool{}, 0)
+						for _, o := range ops {
+							for i, q := range SR.Params {
+								if o == ssa.Value(q) {
+									relBase[i] = true
+								}
+							}
+						}
+					}
+				}
+			}
+			// at every call from the unpack loop, one string argument is the title annotation of the descriptor
+			isTitle := func(a ssa.Value) bool {
+				var leaves []ssa.Value
+				c12ExpandValue(fns, a, 0, map[ssa.Value]bool{}, &leaves)
+				for _, lf := range leaves {
+					lk, isLk := lf.(*ssa.Lookup)
+					if !isLk {
+						return false
+					}
+					if k, isK := constString(lk.Index); !isK || k != title || !strings.HasSuffix(fieldOfFuncValue(lk.X), "Descriptor.Annotations") {
+						return false
+					}
+				}
+				return len(leaves) > 0
+			}
+			for _, g := range fns {
+				for _, call := range Calls(g, func(string) bool { return true }) {
+					if StaticCallee(call) != SR || roles.role[g] != "" {
+						continue
+					}
+					n++
+					found := false
+					for i, a := range call.Common().Args {
+						if i >= len(SR.Params) || (relFn != nil && !relBase[i]) {
+							continue
+						}
+						if b, ok := SR.Params[i].Type().Underlying().(*types.Basic); !ok || b.Kind() != types.String {
+							continue
+						}
+						if isTitle(a) {
+							found = true
+						}
+					}
+					if !found {
+						okUnpack = false
+					}
+				}
+			}
+		}
+	}
+	if n == 0 {
+		okUnpack = false
+	}
+	c.Check(R9, "unpack|base-name-is-title", token.NoPos, okUnpack, ifelse(okUnpack, "the base name every entry name is judged against on unpack is the title annotation of the pushed descriptor",
+		"the base name handed to the archive-entry sanitiser on unpack is not the descriptor's title annotation: entries packed as <title>/<rel> are rejected or land elsewhere"))
+	// the marker deciding "unpack this blob": the value the push side compares
+	// Annotations[AnnotationUnpack] with is the value the packer writes ("true", checked by R1)
+	unpackKey, _ := c12ConstStr(c.P, "AnnotationUnpack")
+	nCmp, okCmp, posCmp := 0, true, token.NoPos
+	for _, f := range fns {
+		AllInstrs(f, func(in ssa.Instruction) {
+			b, ok := in.(*ssa.BinOp)
+			if !ok || (b.Op != token.EQL && b.Op != token.NEQ) {
+				return
+			}
+			for _, pair := range [][2]ssa.Value{{b.X, b.Y}, {b.Y, b.X}} {
+				k, isK := constString(pair[1])
+				if !isK {
+					continue
+				}
+				for _, r := range Roots(pair[0]) {
+					if ex, isEx := r.(*ssa.Extract); isEx {
+						r = ex.Tuple
+					}
+					lk, isLk := r.(*ssa.Lookup)
+					if !isLk {
+						continue
+					}
+					if key, isStr := constString(lk.Index); isStr && key == unpackKey && unpackKey != "" {
+						nCmp++
+						posCmp = b.Pos()
+						if k != "true" {
+							okCmp = false
+						}
+					}
+				}
+			}
+		})
+	}
+	if nCmp == 0 {
+		c.Undecided(R9, "push|unpack-marker-value-agrees", token.NoPos, "no comparison of Annotations[AnnotationUnpack] with a constant is found on the push side: cannot see which blobs are unpacked")
+	} else {
+		c.Check(R9, "push|unpack-marker-value-agrees", posCmp, okCmp, ifelse(okCmp, "the push side unpacks blobs whose AnnotationUnpack is \"true\", the value the packer writes",
+			"the push side compares AnnotationUnpack with another value than the \"true\" the packer writes: packed directories are stored as tarballs (or plain blobs are unpacked)"))
+	}
+}
+
+// c12Reachable: in-package functions (incl. literals) statically reachable from f within depth.
+func c12Reachable(f *ssa.Function, fns []*ssa.Function, depth int) []*ssa.Function {
+	seen := map[*ssa.Function]bool{f: true}
+	var out []*ssa.Function
+	var rec func(g *ssa.Function, d int)
+	rec = func(g *ssa.Function, d int) {
+		for _, a := range g.AnonFuncs {
+			if !seen[a] {
+				seen[a] = true
+				out = append(out, a)
+				rec(a, d)
+			}
+		}
+		if d <= 0 {
+			return
+		}
+		AllInstrs(g, func(in ssa.Instruction) {
+			for _, op := range in.Operands(nil) {
+				if h, ok := (*op).(*ssa.Function); ok && !seen[h] && len(h.Blocks) > 0 && fnPkgPath(h) == fnPkgPath(f) {
+					seen[h] = true
+					out = append(out, h)
+					rec(h, d-1)
+				}
+			}
+		})
+	}
+	rec(f, depth)
+	return out
 }
 
 // ---------- R5: the path sanitisers do not over-reject ----------
@@ -2046,6 +2828,38 @@ func c12ExpandValue(fns []*ssa.Function, v ssa.Value, depth int, seen map[ssa.Va
 				continue
 			}
 			*out = append(*out, r)
+		case *ssa.UnOp:
+			n := 0
+			if u.Op == token.MUL {
+				switch x := u.X.(type) {
+				case *ssa.FreeVar: // a variable captured by a literal / yield closure: what the parent stored into it
+					for _, b := range freeVarBindings(x) {
+						if a, ok := b.(*ssa.Alloc); ok {
+							for _, st := range storesTo(a) {
+								n++
+								c12ExpandValue(fns, st.Val, depth+1, seen, out)
+							}
+						}
+					}
+				case *ssa.FieldAddr: // a field of an unexported carrier struct: what is stored into that field anywhere
+					if c11CarrierStruct(x.X.Type()) {
+						fname := fieldName(x.X.Type(), x.Field)
+						for _, g := range fns {
+							AllInstrs(g, func(in ssa.Instruction) {
+								if st, ok := in.(*ssa.Store); ok {
+									if fa, ok := st.Addr.(*ssa.FieldAddr); ok && fa.Field == x.Field && fieldName(fa.X.Type(), fa.Field) == fname {
+										n++
+										c12ExpandValue(fns, st.Val, depth+1, seen, out)
+									}
+								}
+							})
+						}
+					}
+				}
+			}
+			if n == 0 {
+				*out = append(*out, r)
+			}
 		default:
 			*out = append(*out, r)
 		}
@@ -3003,6 +3817,45 @@ var c12Mutants = []Mutant{
 		Old:    "\t\t\terr = writeFile(filePath, tr, header.FileInfo().Mode(), buf)",
 		New:    "\t\t\tif header.Size == 0 {\n\t\t\t\tvar f *os.File\n\t\t\t\tif f, err = os.Create(filePath); err == nil {\n\t\t\t\t\terr = f.Close()\n\t\t\t\t}\n\t\t\t} else {\n\t\t\t\terr = writeFile(filePath, tr, header.FileInfo().Mode(), buf)\n\t\t\t}",
 		Expect: "C12.R6.entry-mode-from-header|archive-entry|os.Create"},
+	// R8 / R9 (all three keep the repository's tests green)
+	{Name: "pack-copy-error-ignored", File: "content/file/utils.go",
+		Old:    "\t\t\tif _, err := io.CopyBuffer(tw, fp, buf); err != nil {\n\t\t\t\treturn fmt.Errorf(\"failed to copy to %s: %w\", path, err)\n\t\t\t}",
+		New:    "\t\t\tio.CopyBuffer(tw, fp, buf)",
+		Expect: "C12.R8.pack-stream-complete|~/content/file.tarDirectory|content-copied-from-walked-file"},
+	{Name: "tar-close-error-ignored", File: "content/file/utils.go",
+		Old:    "\t\tcloseErr := tw.Close()\n\t\tif err == nil {\n\t\t\terr = closeErr\n\t\t}",
+		New:    "\t\ttw.Close()",
+		Expect: "C12.R8.pack-stream-complete|~/content/file.tarDirectory|tar-close-error-captured"},
+	{Name: "pack-prefix-from-directory-name", File: "content/file/file.go",
+		Old: "tarDirectory(ctx, dir, name, tw,", New: "tarDirectory(ctx, dir, filepath.Base(dir), tw,",
+		Expect: "C12.R9.pack-unpack-name-agreement|(*~/content/file.Store).Add|pack-prefix-is-title"},
+	{Name: "unpack-base-from-target-path", File: "content/file/file.go",
+		Old: "extractTarGzip(target, name, gzPath,", New: "extractTarGzip(target, filepath.Base(target), gzPath,",
+		Expect: "C12.R9.pack-unpack-name-agreement|unpack|base-name-is-title"},
+	{Name: "readlink-error-ignored", File: "content/file/utils.go",
+		Old: "\t\t\tif link, err = os.Readlink(path); err != nil {\n\t\t\t\treturn err\n\t\t\t}", New: "\t\t\tlink, _ = os.Readlink(path)",
+		Expect: "C12.R8.pack-stream-complete|~/content/file.tarDirectory|link-target-from-readlink"},
+	// R10 (all keep the repository's tests green)
+	{Name: "unknown-entry-kind-ends-extraction", File: "content/file/utils.go",
+		Old: "\t\tdefault:\n\t\t\tcontinue // Non-regular files are skipped", New: "\t\tdefault:\n\t\t\treturn nil // Non-regular files are skipped",
+		Expect: "C12.R10.extraction-complete|~/content/file.extractTarDirectory|loop-ends-only-at-eof"},
+	{Name: "unpacked-file-close-error-ignored", File: "content/file/utils.go",
+		Old: "\t\tcloseErr := file.Close()\n\t\tif err == nil {\n\t\t\terr = closeErr\n\t\t}", New: "\t\tfile.Close()",
+		Expect: "C12.R10.extraction-complete|~/content/file.writeFile|content-copied-from-archive"},
+	{Name: "unpacked-copy-error-ignored", File: "content/file/utils.go",
+		Old: "\t_, err = io.CopyBuffer(file, r, buf)\n\treturn err", New: "\tio.CopyBuffer(file, r, buf)\n\treturn nil",
+		Expect: "C12.R10.extraction-complete|~/content/file.writeFile|content-copied-from-archive"},
+	{Name: "unpacked-mkdir-error-ignored", File: "content/file/utils.go",
+		Old: "\t\t\terr = os.MkdirAll(filePath, header.FileInfo().Mode())", New: "\t\t\t_ = os.MkdirAll(filePath, header.FileInfo().Mode())",
+		Expect: "C12.R10.extraction-complete|archive-entry|os.MkdirAll|creation-error-surfaces"},
+	{Name: "unpack-marker-compared-with-other-value", File: "content/file/file.go",
+		Old: "needUnpack == \"true\" && !s.SkipUnpack", New: "needUnpack == \"True\" && !s.SkipUnpack",
+		Expect: "C12.R9.pack-unpack-name-agreement|push|unpack-marker-value-agrees"},
+	// R11
+	{Name: "fetch-looks-up-by-name", File: "content/file/file.go",
+		Old:    "\tval, exists := s.digestToPath.Load(target.Digest)\n\tif exists {\n\t\tpath := val.(string)\n\n\t\tfp, err := os.Open(path)",
+		New:    "\tval, exists := s.digestToPath.Load(target.Digest)\n\tif exists {\n\t\tpath := val.(string)\n\t\tif name != \"\" {\n\t\t\tpath = s.absPath(name)\n\t\t}\n\n\t\tfp, err := os.Open(path)",
+		Expect: "C12.R11.fetch-serves-recorded-path|(*~/content/file.Store).Fetch|opens-path-recorded-for-digest"},
 	// R7
 	{Name: "preserved-mode-only-for-files", File: "content/file/utils.go",
 		Old: "\t\tif preservePermissions && (header.Typeflag == tar.TypeReg || header.Typeflag == tar.TypeDir) {", New: "\t\tif preservePermissions && header.Typeflag == tar.TypeReg {",
